@@ -1,10 +1,11 @@
 (* Extraction of the C04 model.  ExtrOcamlBasic only: bool, option, list,
    prod, unit, sumbool map to OCaml's; N / positive stay inductive. *)
-From RsM Require Import Lib.MachInt Model.Dedup Model.DedupSpec.
+From RsM Require Import Lib.MachInt Model.Dedup Model.DedupSpec Model.DedupRx.
 Require Import ExtrOcamlBasic.
 Extraction Language OCaml.
 Extraction "model.ml"
   N.add N.mul N.div_eucl
   wrap32 rx_unsynced rx_new post_recv run
   gstore_new g_post_recv
+  grx_new grx_recv
   spec_run group_clauses g_monitor.
